@@ -157,7 +157,9 @@ class World:
             (re.compile(r'^m_\w+::<impl at [^>]*>::h(\d+)$'), s._handler),
             (re.compile(r'^m_\w+::<impl at [^>]*>::handle_error$'), s._handle_error),
             (re.compile(r'^m_\w+::<impl at [^>]*>::new$'), s._dev_new),
+            (re.compile(r'^Interface::run$'), s._maybe_abstract_run),
         ]
+        s.abstract_run = None      # set by the C07(a)/C10 checks: stand-in for Interface::run
         s.ex.world = s
         s._names = {}
         s.error_numbers = None
@@ -197,6 +199,11 @@ class World:
         if '{async fn body' in fn.ret:
             return NativeFuture(res, pend=rec.hpend)
         return res
+
+    def _maybe_abstract_run(s, ex, fn, args, env):
+        if s.abstract_run is None:
+            return NotImplemented
+        return s.abstract_run(ex, fn, args, env)
 
     def _handle_error(s, ex, fn, args, env):
         dev = deref(args[0])
